@@ -129,7 +129,7 @@ def inner_tag_table():
             ok = it in table.get(tag, ())
             obs.append(flow.ob(f"{tag}:admits:{it}", ok, f"{where}.parse accepts '{it}' inside '{tag}'; DEFAULT_INNER_TAG_MAP[{tag!r}] = {list(table.get(tag, ()))}",
                                replay_schema="code", replay_extra={"code": REPLAY}))
-    obs.append(flow.ob("parsers-found", len(A) >= 8, f"block tags with parse methods: {sorted(A)}"))
+    obs.append(flow.ob("parsers-found", len(A) >= 3, f"block tags with parse methods: {sorted(A)}"))
     return obs
 
 
